@@ -390,11 +390,112 @@ def check_tsadvance(chk, prog):
     chk.floor(R, n, 2, "bridge functions that merge and discharge (run_rules_inner, flush_updates_inner)")
 
 
+def check_every_variant(chk, prog):
+    """no rule and no focus atom is skipped: a fast path that leaves one out loses exactly the matches whose newest row sits in that atom"""
+    from ..util import guards
+    R = chk.rule("R-EVERY-VARIANT", "(a) run_rules_impl: the loop that builds the iteration's rule set is a plain loop over the `rules` parameter in which every iteration calls "
+                 "add_rules_from_cached and stores last_run_at; (b) add_rules_from_cached: in the loop over focus atoms every iteration reaches add_rule_from_cached_plan, except "
+                 "iterations left under the must-guard `mid_ts == Timestamp 0` (first run: the `old` side is empty, so variants with an `old` atom match nothing); the early "
+                 "single-variant exits are guarded by `!seminaive`, the same zero test, or `sole_focus`")
+    f = prog.need_role(BR + "run_rules_impl", lambda g: g.crate == "egglog_bridge" and bool(g.calls_to("Database::run_rule_set")), "bridge function calling Database::run_rule_set")
+    adds = {c.bb for c in f.calls_to(ARFC)}
+    stores = {i for i, j, s2 in field_writes(f, "last_run_at")}
+    rules_param = [i for i in range(1, f.argc + 1) if "RuleId" in f.locals[i] and f.locals[i].startswith("&[")]
+    ok = bool(adds) and bool(stores) and bool(rules_param)
+    why = "anchors missing"
+    if ok:
+        ok = False
+        why = "no plain loop over the `rules` parameter reaches add_rules_from_cached"
+        for c in f.calls:
+            if not (c.p.endswith("Iterator>::next") or c.p.endswith("Iterator::next")):
+                continue
+            at = f.origins(c.args[0])
+            if not at or not all(a[0] == "param" and a[1] == rules_param[0] and not a[2] for a in at):
+                continue
+            sw = c.target
+            if sw is None or f.term(sw)[0] != "switch":
+                continue
+            some = [tb for v, tb in f.term(sw)[2] if v == "1"]
+            if not some or not any(b in ({some[0]} | f.reach_avoiding([some[0]], {c.bb})) for b in adds):
+                continue
+            r1 = {some[0]} | f.reach_avoiding([some[0]], adds)
+            r2 = {some[0]} | f.reach_avoiding([some[0]], stores)
+            if c.bb in r1:
+                why = "an iteration can move on to the next rule without add_rules_from_cached"
+            elif c.bb in r2:
+                why = "an iteration can move on to the next rule without storing last_run_at"
+            else:
+                ok = True
+    chk.judge(ok, R, f"{f.name}:every-rule", "every rule of the call gets its variants and its last_run_at", why + ": that rule does not run in this iteration (or re-runs over the same delta)", f.loc)
+    g = prog.need_role(ARFC, lambda h: h.crate == "egglog_bridge" and len([c for c in h.calls if c.p.endswith("add_rule_from_cached_plan")]) >= 2,
+                       "bridge function building several variants with add_rule_from_cached_plan")
+    mid = [i for i in range(1, g.argc + 1) if g.locals[i].endswith("Timestamp")]
+    plans = {c.bb for c in g.calls if c.p.endswith("add_rule_from_cached_plan")}
+
+    def zero_guarded(b):
+        for gd in guards(g, b):
+            if gd.get("rel") == "Eq":
+                oa, ob = g.origins(gd["a"]), g.origins(gd["b"])
+                for x, y in ((oa, ob), (ob, oa)):
+                    if any(a[0] == "param" and a[1] == mid[0] and not a[2] for a in x) and any((a[0] == "call" and "Timestamp" in a[1] and a[1].endswith("::new")) or a[0] == "const" for a in y):
+                        return True
+        return False
+    ok2 = bool(mid) and bool(plans)
+    why2 = "anchors missing"
+    if ok2:
+        ok2 = False
+        why2 = "no range loop over the focus atoms found"
+        for c in g.calls:
+            if not (c.p.endswith("Iterator>::next") or c.p.endswith("Iterator::next")) or "Range" not in c.p:
+                continue
+            sw = c.target
+            if sw is None or g.term(sw)[0] != "switch":
+                continue
+            some = [tb for v, tb in g.term(sw)[2] if v == "1"]
+            if not some:
+                continue
+            body = {some[0]} | g.reach_avoiding([some[0]], {c.bb})
+            if not (plans & body):
+                continue
+            skip = {b for b in body if zero_guarded(b)}
+            # walk the body; edges taken under `mid_ts == 0` are allowed to leave the iteration
+            from ..util import edge_relation
+
+            def zero_edge(b, sx):
+                er = edge_relation(g, b, sx)
+                if not er or er.get("rel") != "Eq":
+                    return False
+                oa, ob = g.origins(er["a"]), g.origins(er["b"])
+                for x, y in ((oa, ob), (ob, oa)):
+                    if any(a[0] == "param" and a[1] == mid[0] and not a[2] for a in x) and any((a[0] == "call" and "Timestamp" in a[1] and a[1].endswith("::new")) or a[0] == "const" for a in y):
+                        return True
+                return False
+            seen = set()
+            stack = [some[0]]
+            reached = False
+            while stack:
+                x = stack.pop()
+                if x in seen or x in plans or x in skip:
+                    continue
+                seen.add(x)
+                if x == c.bb:
+                    reached = True
+                    break
+                for sx in g.succ[x]:
+                    if not zero_edge(x, sx):
+                        stack.append(sx)
+            ok2 = not reached
+            why2 = "a focus atom can be skipped on a path that is not guarded by mid_ts == 0"
+    chk.judge(ok2, R, f"{g.name}:every-focus", "every atom gets its `new` variant (or the run is the first one)",
+              why2 + ": matches whose only new row is in that atom are never produced", g.loc)
+
+
 def run(chk, prog, tier):
     chk.explanation = EXPLANATION
     chk.assumptions = ["rustc nightly MIR construction", "R-FIXPOINT (C01) establishes that every pass of a rebuild loop calls inc_ts"]
     check_delta(chk, prog)
     check_lastrun(chk, prog)
+    check_every_variant(chk, prog)
     check_restamp(chk, prog)
     check_tsadvance(chk, prog)
     from . import c16, c14
